@@ -1118,6 +1118,54 @@ func (e *engine) doStep(st step) {
 			obs = "other: " + r.Err.Error()
 		}
 
+	case "TAcquire":
+		// the third node asks for the halt lock of the same database through its own lock file, and its application
+		// happens to use the same lock-owner value as the holder's (lock owners are unique per kernel, not per
+		// cluster): two nodes, two requests - the second one must wait for the first holder
+		p := e.prim
+		hhT, herr := w.openLockFile("T")
+		if herr != nil {
+			e.res.Infra = "open lock file on T: " + herr.Error()
+			e.dead = true
+			return
+		}
+		if e.hh != nil {
+			hhT.owner = e.hh.owner
+		}
+		heldByR := e.held[p] != 0 && w.n["R"].Store.DB(w.db).RemoteHaltLock() != nil
+		var err error
+		ctx, cancel := context.WithTimeout(context.Background(), w.o.AcquireTO+5*time.Second)
+		pn, to := bounded("LockWait(T)", w.o.AcquireTO+10*time.Second, func() { err = hhT.lockWait(ctx) })
+		cancel()
+		if e.callTrouble("LockWait on T", pn, to) {
+			return
+		}
+		e.res.Evals++
+		if err == nil {
+			obs = "ok"
+			if heldByR {
+				e.fail("C13.no-local-transaction-while-halted", "second-node-granted-the-halt-lock-while-it-is-held", false, map[string]any{"holder": "R", "second": "T",
+					"holders_lock": w.n["R"].Store.DB(w.db).RemoteHaltLock(), "seconds_lock": w.n["T"].Store.DB(w.db).RemoteHaltLock(),
+					"what": "two replicas hold the halt lock of one database at the same time (their applications use the same lock-owner value)"})
+			}
+			uctx, ucancel := context.WithTimeout(context.Background(), 10*time.Second)
+			_ = core.Try(func() { _ = hhT.unlock(uctx) })
+			ucancel()
+		} else {
+			obs = "busy"
+		}
+		e.res.Classes[fmt.Sprintf("TAcquire:granted=%v/holder-held=%v", err == nil, heldByR)]++
+		if heldByR {
+			// whatever became of the second node's request, the holder has neither released the lock nor let it expire
+			e.res.Evals++
+			time.Sleep(20 * time.Millisecond)
+			if lt := w.lockTable(p); lt["pending"] != "exclusive" && lt["write"] != "exclusive" {
+				e.fail("C13.no-local-transaction-while-halted", "holder-lost-the-lock-to-another-nodes-request", false, map[string]any{"holder": "R", "other": "T",
+					"others_request_error": sim.ErrString(err), "lock_table_of_the_primary": lt,
+					"what": "while R holds the halt lock another replica's request (same lock-owner value) was made and ended; afterwards the primary's write locks are free although R neither released the lock nor let it expire"})
+			}
+		}
+
 	case "LDrop":
 		// the primary's application unlinks the database (FUSE unlink -> RootNode.Remove -> DB.Drop)
 		p := e.prim
@@ -1641,6 +1689,11 @@ func directed() []script {
 		// the acquire request is given up by the requester inside the primary's grant and repeated with the same id
 		{NoModel: true, Src: "directed/acquire-abandoned-then-repeated", H: []step{
 			mk("Acquire", gArgs{F: "none", Intr: true}), mk("LWBegin", gArgs{}), mk("RTx", none), mk("LWBegin", gArgs{}), mk("Release", none), mk("LWBegin", gArgs{}), mk("LWCommit", gArgs{})}},
+		// a second replica asks for the lock with the same lock-owner value while the first one holds it
+		{NoModel: true, Src: "directed/second-node-same-lock-owner", H: []step{
+			mk("Acquire", none), mk("RTx", none), mk("TAcquire", gArgs{}), mk("RTx", none), mk("Release", none), mk("LWBegin", gArgs{}), mk("LWCommit", gArgs{})}},
+		{NoModel: true, Src: "directed/second-node-same-lock-owner-at-the-lock-position", H: []step{
+			mk("Acquire", none), mk("TAcquire", gArgs{}), mk("RTx", none), mk("Release", none), mk("LWBegin", gArgs{}), mk("LWCommit", gArgs{})}},
 		// the primary's application unlinks the database while the replica holds the halt lock
 		{NoModel: true, Src: "directed/local-drop-during-halt", H: []step{
 			mk("Acquire", none), mk("RTx", none), mk("LDrop", gArgs{})}},
